@@ -91,3 +91,9 @@ def run(ctx):
     c08.writer_model(ctx.sub("S4"), "R1")
     c08.loader_model(ctx.sub("S4"), "R2")
     chain_walkers(ctx)
+    # the one client of the protocol inside the repository is the verify-metadata command: the root
+    # it judges an offer against is the file it was given, and its status is the library's verdict
+    # (C17's rule set, re-evaluated here)
+    from . import c17
+
+    c17.run(ctx.sub("S6-C17"))
